@@ -68,8 +68,102 @@ func (r *Runner) replayLight(l *Line) lineResult {
 			panic("unknown light step " + st.A)
 		}
 	}
-	return lineResult{fails: w.fails, calls: w.mon.ncalls, insts: 1,
+	res := lineResult{fails: w.fails, calls: w.mon.ncalls, insts: 1,
 		nontrivial: l.Step.A == "undoblock" || len(l.Step.D) > 0 || l.Step.K > 0}
+	// the same undo with a very large block (the result of undoing a block
+	// does not depend on how many leaves the block added)
+	big := 0
+	fmt.Sscan(optVal(r.extra, "big", "0"), &big)
+	if big > 0 && l.Step.A == "undoblock" && len(l.Hist) > 0 && l.Hist[len(l.Hist)-1].A == "block" && (r.one || lineHash(l.raw)%uint64(big) == 0) {
+		w2 := r.lightBigUndo(l)
+		res.fails = append(res.fails, w2.fails...)
+		res.calls += w2.mon.ncalls
+		res.extra = map[string]int{"big_block_undos": 1}
+	}
+	return res
+}
+
+// lightBigUndo replays the history up to the block that the last step undoes,
+// applies that block with 65536 more additions (same deletions, same remember
+// indexes) through the real Stump.Update / Proof.Update pipeline, and undoes
+// it with that block's data.  What the client must hold afterwards is the
+// expectation of the undo step: it does not depend on the number of additions.
+func (r *Runner) lightBigUndo(l *Line) *World {
+	const extra = 65536
+	w := NewWorld(r.sy, WorldCfg{Seed: r.cfg.Seed})
+	lc := &lightClient{}
+	p := utreexo.NewAccumulator()
+	lc.full = &p
+	in := &Inst{Name: "lightclient.bigblock", Kind: KStump}
+	for i := 0; i < len(l.Hist)-1; i++ {
+		w.stepI = i
+		st := &l.Hist[i]
+		if st.A == "block" {
+			w.lightBlock(in, lc, st)
+		} else {
+			w.lightUndo(in, lc, st)
+		}
+	}
+	if len(w.fails) > 0 {
+		// the ordinary replay reports these
+		w.fails = nil
+		return w
+	}
+	w.fails = nil
+	props := []string{"C08"}
+	blk := &l.Hist[len(l.Hist)-1]
+	und := &l.Step
+	w.stepI = len(l.Hist)
+	ba := w.blockArgs(blk)
+	K := blk.K + extra
+	for i := blk.K; i < K; i++ {
+		ba.adds = append(ba.adds, w.sy.H(leafTerm(int(w.n)+i)))
+	}
+	prev := utreexo.Stump{Roots: append([]Hash{}, lc.S.Roots...), NumLeaves: lc.S.NumLeaves}
+	rem := make([]uint32, len(blk.Rem))
+	for i, x := range blk.Rem {
+		rem[i] = uint32(x)
+	}
+	var ud utreexo.UpdateData
+	var err error
+	var newH []Hash
+	pan := protect(func() {
+		ud, err = lc.S.Update(ba.dels, ba.adds, utreexo.Proof{Targets: ba.targets, Proof: ba.proof})
+		if err != nil {
+			return
+		}
+		newH, err = lc.P.Update(lc.H, ba.adds, ba.targets, rem, ud)
+	})
+	if pan != "" || err != nil {
+		w.fail([]string{"C07"}, in, "error", fmt.Sprintf("block with %d additions failed: %v %s", K, err, pan), nil, nil)
+		return w
+	}
+	lc.H = newH
+	nBig := w.n + uint64(K)
+	Rprev := treeRows(w.n)
+	var undone []Hash
+	pan = protect(func() {
+		undone, err = lc.P.Undo(uint64(K), nBig, ba.targets, ba.dels, lc.H, ud.ToDestroy, utreexo.Proof{Targets: ba.targets, Proof: ba.proof})
+	})
+	if pan != "" {
+		w.fail(props, in, "panic", fmt.Sprintf("Proof.Undo of a block with %d additions panicked: %s", K, pan), nil, nil)
+		return w
+	}
+	if err != nil {
+		w.fail(props, in, "error", fmt.Sprintf("Proof.Undo of a block with %d additions failed: %v", K, err), nil, nil)
+		return w
+	}
+	lc.H = undone
+	lc.S = prev
+	what := fmt.Sprintf("after Proof.Undo of the block with %d additions", K)
+	if len(ud.ToDestroy) > 0 && w.onlyLost(lc, und, Rprev) {
+		w.fail(props, in, "hold.lost.td", what+": held leaves lost (the undone block overwrote an empty root)", und.Held, w.sy.Ts(lc.H))
+		w.lightVerify(in, lc, props, what)
+		return w
+	}
+	w.compareHolding(in, lc, und, Rprev, props, what)
+	w.lightVerify(in, lc, props, what)
+	return w
 }
 
 func specUpdateData(w *World, st *Step) utreexo.UpdateData {
